@@ -548,6 +548,7 @@ func c16Hostile(c *fw.Ctx, r *rand.Rand, idx int) {
 			p := gen.Starts()[0]
 			s.send("ucinewgame")
 			s.send("position startpos")
+			s.sync() // whatever was still being reported for earlier searches is out before this readyok
 			m := s.send("go depth 1")
 			_, _, ok := s.waitLine(m, isBestmove, uciWatchdog)
 			end, _ := s.sync()
